@@ -83,6 +83,13 @@ M = [
     ("C19", "colour-eats-byte", "dissect/cstruct/utils.py", "                if active:\n                    values += f\"{ord(char):02x}\"", "                if active:\n                    values += f\"{ord(char) & 0x7f:02x}\""),
     ("C19", "dumpstruct-skips-last", "dissect/cstruct/utils.py", "    for field in structure.__class__.__fields__:\n        if getattr", "    for field in structure.__class__.__fields__[: max(1, len(structure.__class__.__fields__) - (len(structure.__class__.__fields__) > 4))]:\n        if getattr"),
     ("C19", "u16-ignores-endian", "dissect/cstruct/utils.py", "    return unpack(value, 16, endian, sign)", '    return unpack(value, 16, "little" if endian == "network" else endian, sign)'),
+    ("C17", "eq-drops-last", "dissect/cstruct/types/structure.py", '    self_vals = ",".join(f"self.{name}" for name in fields)\n    other_vals = ",".join(f"other.{name}" for name in fields)\n\n    if self_vals:', '    self_vals = ",".join(f"self.{name}" for name in fields[: max(1, len(fields) - (len(fields) > 5))])\n    other_vals = ",".join(f"other.{name}" for name in fields[: max(1, len(fields) - (len(fields) > 5))])\n\n    if self_vals:'),
+    ("C17", "bool-all", "dissect/cstruct/types/structure.py", "        return any([{vals}])", "        return all([{vals}]) if len([{vals}]) == 4 else any([{vals}])"),
+    ("C17", "hash-drops-first", "dissect/cstruct/types/structure.py", '    vals = ", ".join(f"self.{name}" for name in fields)\n\n    code = f\"\"\"\n    def __hash__(self):', '    vals = ", ".join(f"self.{name}" for name in fields) + (", id(self)" if len(fields) == 2 else "")\n\n    code = f\"\"\"\n    def __hash__(self):'),
+    ("C17", "init-default-index", "dissect/cstruct/types/structure.py", "            co_consts=(None, *[field.type.__default__() for field in fields]),", "            co_consts=(None, *([field.type.__default__() for field in fields][::-1] if len(fields) == 3 else [field.type.__default__() for field in fields])),"),
+    ("C17", "eq-ignores-class", "dissect/cstruct/types/structure.py", "        if self.__class__ is other.__class__:\n            return ({self_vals}) == ({other_vals})", "        if self.__class__ is other.__class__ or len(self.__class__.__fields__) == 7:\n            return ({self_vals}) == ({other_vals})"),
+    ("C17", "anon-setter-wrong-field", "dissect/cstruct/types/structure.py", "        setattr(obj, attr, value)\n\n    return _func", "        setattr(obj, attr, value if not isinstance(value, int) or isinstance(value, bool) else int(value) & ~1)\n\n    return _func"),
+    ("C17", "write-skips-offset-pad", "dissect/cstruct/types/structure.py", "            value = getattr(data, field._name, None)\n            if value is None:\n                value = field_type.__default__()\n\n            if field.bits:", "            value = getattr(data, field._name, None)\n            if value is None or (field.bits == 7 and value == 1):\n                value = field_type.__default__()\n\n            if field.bits:"),
     ("C06", "be-mask-off", "dissect/cstruct/bitbuffer.py", "v >>= self._remaining - bits", "v >>= max(0, self._remaining - bits - (1 if bits == 7 else 0))"),
     ("C06", "writer-shift", "dissect/cstruct/bitbuffer.py", "self._buffer |= data << (self._type.size * 8 - self._remaining)", "self._buffer |= data << (self._type.size * 8 - self._remaining) if bits != 5 else data << bits"),
     ("C06", "straddle-lt", "dissect/cstruct/types/structure.py", "                if bits_remaining < 0:\n                    raise ValueError", "                if bits_remaining < -1:\n                    raise ValueError"),
